@@ -11,6 +11,7 @@ import (
 	"go/types"
 	"os"
 	"path/filepath"
+	"regexp"
 	"sort"
 	"strconv"
 	"strings"
@@ -120,6 +121,17 @@ func Load(cfg Config) (*Engine, error) {
 	if modDir == "" {
 		modDir = cfg.RepoDir
 	}
+	// contract files of packages that are NOT under verification in this run (hook files committed in
+	// the repository) are neutralised: they are compiled with the tag as dependencies, but their spec
+	// helpers (stdlib overlay, generated clause functions) are only supplied for the packages of this
+	// run. An empty file of the same package takes their place.
+	keep := map[string]bool{}
+	for d := range setsByDir {
+		keep[d] = true
+	}
+	for k, v := range NeutralHookOverlay(cfg.RepoDir, keep) {
+		overlay[k] = v
+	}
 	tags := cfg.Tags
 	if tags == "" {
 		tags = "verif"
@@ -193,6 +205,37 @@ func Load(cfg Config) (*Engine, error) {
 		}
 	}
 	return e, nil
+}
+
+// NeutralHookOverlay maps every verif_*.go file under repoDir whose directory is not in keep to an
+// empty file of the same package (see Load).
+func NeutralHookOverlay(repoDir string, keep map[string]bool) map[string][]byte {
+	out := map[string][]byte{}
+	re := regexp.MustCompile(`(?m)^package\s+(\w+)`)
+	filepath.WalkDir(repoDir, func(path string, d os.DirEntry, err error) error {
+		if err != nil {
+			return nil
+		}
+		if d.IsDir() {
+			if n := d.Name(); n == ".git" || n == "node_modules" || n == "_testdata" {
+				return filepath.SkipDir
+			}
+			return nil
+		}
+		base := filepath.Base(path)
+		if !strings.HasPrefix(base, "verif_") || !strings.HasSuffix(base, ".go") || keep[filepath.Dir(path)] {
+			return nil
+		}
+		b, rerr := os.ReadFile(path)
+		if rerr != nil {
+			return nil
+		}
+		if m := re.FindSubmatch(b); m != nil {
+			out[path] = []byte("//go:build verif\n\npackage " + string(m[1]) + "\n")
+		}
+		return nil
+	})
+	return out
 }
 
 // resolve finds the SSA function a contract block talks about and checks the signature.
